@@ -24,6 +24,8 @@ InitCases ==
         cs = [op |-> "set_index", f |-> F(kv, jv), lab |-> lab, drop |-> drop]
   \/ \E kv \in [1..NR -> KVals], jv \in [1..NR -> JVals], labs \in {<<S("k"), S("j")>>, <<S("k"), S("v")>>, <<S("j"), S("k")>>}, drop \in BOOLEAN :
         cs = [op |-> "set_index_hierarchy", f |-> F(kv, jv), labs |-> labs, drop |-> drop]
+  \/ \E kv \in [1..NR -> KVals], jv \in [1..NR -> JVals], labs \in {<<S("k"), S("j")>>, <<S("j"), S("k")>>, <<S("k"), S("v")>>}, drop \in BOOLEAN :
+        cs = [op |-> "set_index_hierarchy_reorder", f |-> F(kv, jv), labs |-> labs, drop |-> drop]
   \/ \E kv \in [1..NR -> KVals], jv \in [1..NR -> JVals], lab \in {S("k"), S("v")} : cs = [op |-> "shift_in_rows", f |-> F(kv, jv), lab |-> lab]
   \/ \E kv \in [1..NR -> KVals], jv \in [1..NR -> JVals], lab \in {RowLab[1], RowLab[NR], S("zz")} : cs = [op |-> "shift_in_cols", f |-> F(kv, jv), lab |-> lab]
   \/ \E kv \in [1..NR -> KVals], jv \in [1..NR -> JVals] : cs = [op |-> "unset_index", f |-> F(kv, jv), names |-> <<S("ix")>>]
@@ -77,6 +79,14 @@ RoundTrips ==
         /\ \A j \in 1..NCols(cs.f) : back.cols[ColIdx(back, cs.f.columns[j])].vals = cs.f.cols[j].vals
   /\ (Done /\ cs.op = "stack") =>
         \A i \in 1..NR, j \in 1..NCols(cs.f) : UnstackCell(res, cs.f.index[i], I(0), cs.f.columns[j], NaN) = CellAt(cs.f, i, j)
+(* reorder_for_hierarchy: a permutation of the rows - every source row appears once, with all its cells under its own key label - whose *)
+(* labels form a tree                                                                                                                      *)
+ReorderKeepsRows ==
+  (Done /\ cs.op = "set_index_hierarchy_reorder" /\ res.k = "frame") =>
+     /\ TreeOrdered([i \in 1..NRows(res) |-> res.index[i][2]])
+     /\ \A i \in 1..NR : \E k \in 1..NRows(res) :
+           /\ res.index[k] = Tup(KeyTuple(cs.f, i, cs.labs))
+           /\ \A j \in 1..NCols(res) : res.cols[j].vals[k] = cs.f.cols[ColIdx(cs.f, res.columns[j])].vals[i]
 CellsKeptWithRow ==       \* moving a column into the labels keeps every remaining cell in its row
   (Done /\ cs.op \in {"set_index", "set_index_hierarchy", "shift_in_rows"} /\ res.k = "frame") =>
      \A j \in 1..NCols(res) : res.cols[j].vals = cs.f.cols[ColIdx(cs.f, res.columns[j])].vals
